@@ -1309,6 +1309,9 @@ def str_to_man_exp(x, base=10):
         a, b = parts[0], parts[1].rstrip('0')
         exp -= len(b)
         x = a + b
+        # '.0', '-.0': no digit is left
+        if x in ('', '+', '-'):
+            x += '0'
     x = MPZ(int(x, base))
     return x, exp
 
